@@ -387,15 +387,23 @@ package badgerstore
 //@   callsite Unmarshal#1 json.UnmarshalFresh
 //@ # nset: index entries written by the rebuild
 //@ ghostvar nset int
+//@ # knn: key-function results that were not nil (index membership is "Key(v) != nil", as in updateIndex and affectsQuery)
+//@ ghostvar knn int
+//@ func callback.keyCBnn(self ref, v interface{}) (k []byte)
+//@   modifies alloc, ghost.knn
+//@   ensures unchanged("bytes") && knn == old(knn) + ite(ref(k) != 0, 1, 0)
 //@ func QueryStore.RebuildIndexes$1(txn *badger.Txn) (err error)
 //@   requires qs != nil && qs.st != nil && txn != nil && itopen == 0 && forallint(k, imp(mapHasId(qs.idxs, k), mapValId(qs.idxs, k).Key != nil))
 //@   modifies all
-//@   callback Key keyCB
+//@   callback Key keyCBnn
+//@   ghost call Txn.Set#1 after :: set nset = nset + 1
+//@   # every key that is not nil gets its entry (an empty key is a key)
+//@   ensures every.key: imp(isNil(err), nset - old(nset) == knn - old(knn))
 //@   # an entry is written for the scanned value under its id (the scanned key without the store prefix), built from the index and the key of the value
 //@   ghost call Txn.Set#1 before :: assert entry: len(arg_key) == len(idx.Name) + len(iv) + len(rname) + 2 && bytes(arg_key)[0:len(idx.Name)] == idx.Name && bytes(arg_key)[len(idx.Name)+1:len(idx.Name)+1+len(iv)] == bytes(iv) && bytes(arg_key)[len(idx.Name)+2+len(iv):] == bytes(rname) && ref(iv) != 0
 //@   ghost call Item.KeyCopy#1 after :: assert id: len(arg_k) >= len(prefix)
 //@   # what is decoded as a value is not the init marker of the store (they share the key space when the prefix is empty)
 //@   ghost call Item.Value#1 before :: assert not.marker: strOf(skArr(itpos), skLen(itpos)) != "$" + qs.st.prefix + "init"
 //@   ensures closed: itopen == 0
-//@   loop 1 invariant 0 <= itpos && itopen == 1 && qs != nil && qs.st != nil && txn != nil && forallint(k, imp(mapHasId(qs.idxs, k), mapValId(qs.idxs, k).Key != nil)) && len(prefix) == len(qs.st.prefix) && bytes(initKey) == "$" + qs.st.prefix + "init"
-//@   loop 2 invariant 0 <= itpos && itopen == 1 && qs != nil && qs.st != nil && txn != nil && forallint(k, imp(mapHasId(qs.idxs, k), mapValId(qs.idxs, k).Key != nil)) && len(prefix) == len(qs.st.prefix) && item != nil && bytes(initKey) == "$" + qs.st.prefix + "init"
+//@   loop 1 invariant 0 <= itpos && itopen == 1 && qs != nil && qs.st != nil && txn != nil && forallint(k, imp(mapHasId(qs.idxs, k), mapValId(qs.idxs, k).Key != nil)) && len(prefix) == len(qs.st.prefix) && bytes(initKey) == "$" + qs.st.prefix + "init" && nset - old(nset) == knn - old(knn)
+//@   loop 2 invariant 0 <= itpos && itopen == 1 && qs != nil && qs.st != nil && txn != nil && forallint(k, imp(mapHasId(qs.idxs, k), mapValId(qs.idxs, k).Key != nil)) && len(prefix) == len(qs.st.prefix) && item != nil && bytes(initKey) == "$" + qs.st.prefix + "init" && nset - old(nset) == knn - old(knn)
